@@ -405,6 +405,7 @@ inductive Op
   | envMax (m : Option (Prio × Hash))
   | envBlock (h : Hash) (present : Bool)
   | envCertErr (b : Bool)
+  | insertFailed (h : Hash)            -- the chain inserter refused the committed block: Voter.removeMarkedBlock
 deriving Repr
 
 /-- the `if context changed` block of Voter.updateContext: flush the pending header update, new ring slot, reset latches -/
@@ -510,6 +511,11 @@ def step (v : Voter) (op : Op) : Voter × List Out × Ret :=
   match op with
   | .context c st cert => let (v', o) := updateContext v c st cert; (v', o, .ok)
   | .vote m => processVoteMsg v m
+  | .insertFailed h =>
+    -- removeMarkedBlock (with the nil guard of the repaired code): forget the marks if they name this block
+    match v.nextMarked with
+    | some (nh, _) => if nh = h then ({ v with nextMarked := none, nextVoted := none }, [], .ok) else (v, [], .ok)
+    | none => (v, [], .ok)
   | op => ({ v with env := applyEnv v.env op }, [], .ok)
 
 def run (v : Voter) : List Op → Voter × List (List Out × Ret)
